@@ -60,6 +60,12 @@ def ev(t, env):
         r = -ev(t[1], env)
     elif k == "^":
         r = ev(t[1], env) ** t[2]
+    elif k == "if":
+        r = ev(t[2], env) if ev(t[1], env) != 0 else ev(t[3], env)
+    elif k == "not":
+        r = Fr(0) if ev(t[1], env) != 0 else Fr(1)
+    elif k == "lt":
+        r = Fr(1) if ev(t[1], env) < ev(t[2], env) else Fr(0)
     else:
         a, b = ev(t[1], env), ev(t[2], env)
         if k == "+":
@@ -135,6 +141,8 @@ def poly(t):
                 if r[m] == 0:
                     del r[m]
         return r
+    if k in ("if", "not", "lt"):
+        raise NotPoly()
     if k == "neg":
         return add({}, poly(t[1]), -1)
     if k == "^":
@@ -351,6 +359,12 @@ def rtree(t, integer):
         return "(-%s)" % rtree(t[1], integer)
     if k == "^":
         return "(%s)^%d" % (rtree(t[1], integer), t[2])
+    if k == "if":
+        return "(if %s then %s else %s)" % (rtree(t[1], integer), rtree(t[2], integer), rtree(t[3], integer))
+    if k == "not":
+        return "(not %s)" % rtree(t[1], integer)
+    if k == "lt":
+        return "(%s < %s)" % (rtree(t[1], True), rtree(t[2], True))
     return "(%s %s %s)" % (rtree(t[1], integer), k, rtree(t[2], integer))
 
 
@@ -563,6 +577,8 @@ def g_mexp(rng, P, r, c):
 
 
 def gen_case(rng, kind):
+    if kind in ("switch", "extends", "component"):
+        return {"switch": gen_switch, "extends": gen_extends, "component": gen_component}[kind](rng)
     BILINEAR[0] = {"single_bilinear": "bilinear", "multilinear": "multilinear"}.get(kind, False)
     try:
         return gen_case_(rng, kind)
@@ -697,7 +713,13 @@ def gen_case_(rng, kind):
     if steps:
         case["steps"] = steps
     case["text"] = render(case)
-    # parameter vectors: declared values (when literal) + random ones
+    case["pvs_exact"] = make_pvs(rng, P)
+    return case
+
+
+def make_pvs(rng, P, booleans=None):
+    """parameter vectors: declared values (when literal) + random ones; booleans = forced value of all Boolean
+    parameters per vector (None = random)"""
     pvs = []
     for i in range(3):
         pv = {}
@@ -707,7 +729,9 @@ def gen_case_(rng, kind):
             for d in dims:
                 cnt *= d
             dv = p["attrs"].get("value")
-            if i == 0 and dv is not None and dv["k"] in ("lit", "elems", "mat"):
+            if p["type"] == "Boolean" and booleans and booleans[i] is not None:
+                vals = [Fr(booleans[i])] * cnt
+            elif i == 0 and dv is not None and dv["k"] in ("lit", "elems", "mat"):
                 vals = [x[1] for x in decl_elems(dv, cnt, dims)]
             elif p["type"] == "Boolean":
                 vals = [Fr(rng.randint(0, 1)) for _ in range(cnt)]
@@ -717,7 +741,179 @@ def gen_case_(rng, kind):
                 vals = [Fr(rng.randint(-12, 12), 4) for _ in range(cnt)]
             pv[p["name"]] = [fs(x) for x in vals]
         pvs.append(pv)
-    case["pvs_exact"] = pvs
+    return pvs
+
+
+# ---- attributes switched by Boolean / Integer parameters (if, not, comparison) -----------------------
+def gen_switch(rng):
+    ifonly = rng.random() < 0.6      # only `if <Boolean parameter>`: no comparison / not instruction anywhere
+    P = [{"name": "flag", "cat": "param", "type": "Boolean", "dims": [], "attrs": {"value": lit("B", rng.random() < 0.5)}},
+         {"name": "p", "cat": "param", "type": "Real", "dims": [], "attrs": {"value": lit("R", rlitval(rng, "R"))}}]
+    if rng.random() < 0.5:
+        P.append({"name": "free", "cat": "param", "type": "Boolean", "dims": [], "attrs": {"value": lit("B", rng.random() < 0.5)}})
+    if rng.random() < 0.5:
+        P.append({"name": "q", "cat": "param", "type": "Real", "dims": [], "attrs": {"value": lit("R", rlitval(rng, "R"))}})
+    if not ifonly or rng.random() < 0.3:
+        P.append({"name": "n", "cat": "param", "type": "Integer", "dims": [], "attrs": {"value": lit("I", rlitval(rng, "I"))}})
+    rng.shuffle(P)
+    bools = [(q["name"], None, "Boolean") for q in P if q["type"] == "Boolean"]
+    reals = [(q["name"], None, "Real") for q in P if q["type"] == "Real"]
+    ints = [(q["name"], None, "Integer") for q in P if q["type"] == "Integer"]
+
+    def cond():
+        b = rng.choice(bools)
+        c = ["p", b[0], None]
+        if ifonly:
+            return c
+        r = rng.random()
+        if r < 0.35 and ints:
+            k = ["c", fs(rng.randint(-2, 3))]
+            n = ["p", rng.choice(ints)[0], None]
+            return ["lt", k, n] if rng.random() < 0.5 else ["lt", n, k]
+        if r < 0.6:
+            return ["not", c]
+        return c
+
+    def branch(integer):
+        if ifonly:        # constant branches: the structural Hessian of the switch is zero
+            return ["c", fs(rlitval(rng, "I" if integer else "R"))]
+        if integer:
+            return ["c", fs(rlitval(rng, "I"))] if not ints or rng.random() < 0.6 else g_aff_p(rng, ints, 1, True)
+        return ["c", fs(rlitval(rng, "R"))] if rng.random() < 0.55 else g_aff_p(rng, reals, 1, False)
+    pool = [("x", "state", "Real", []), ("a", "alg", "Real", []), ("w", "alg", "Real", []), ("i", "alg", "Integer", []),
+            ("y", "alg", "Real", [2]), ("u", "input", "Real", [])]
+    rng.shuffle(pool)
+    V, switched = [], 0
+    for nm, cat, T, dims in pool[:rng.randint(2, 4)]:
+        v = {"name": nm, "cat": cat, "type": T, "dims": dims, "attrs": {}}
+        integer = T == "Integer"
+        for a in ["min", "max", "start", "nominal"]:
+            r = rng.random()
+            if r < 0.3:
+                v["attrs"][a] = {"k": "exp", "e": ["if", cond(), branch(integer), branch(integer)]}
+                switched += 1
+            elif r < 0.5 and (ints if integer else reals):
+                v["attrs"][a] = {"k": "exp", "e": g_aff_p(rng, ints if integer else reals, rng.choice([1, 2]), integer)}
+            elif r < 0.65:
+                v["attrs"][a] = lit("I" if integer else "R", rlitval(rng, "I" if integer else "R"))
+            if dims and a in v["attrs"]:
+                v["attrs"][a]["each"] = True
+        if rng.random() < 0.3:
+            b = ["p", rng.choice(bools)[0], None]
+            v["attrs"]["fixed"] = {"k": "exp", "e": b if ifonly or rng.random() < 0.4 else ["not", b]}
+            if dims:
+                v["attrs"]["fixed"]["each"] = True
+            switched += 1
+        V.append(v)
+    if not switched:
+        V[0]["attrs"]["max"] = {"k": "exp", "e": ["if", cond(), branch(V[0]["type"] == "Integer"), branch(V[0]["type"] == "Integer")]}
+        if V[0]["dims"]:
+            V[0]["attrs"]["max"]["each"] = True
+    r = rng.random()
+    via, opts = ("generate", {}) if r < 0.6 else ("generate", {"expand_mx": True}) if r < 0.8 else ("transfer", {})
+    case = {"kind": "switch", "params": P, "vars": V, "via": via, "opts": opts}
+    case["text"] = render(case)
+    case["pvs_exact"] = make_pvs(rng, P, booleans=[None, 1, 0])
+    return case
+
+
+# ---- modified attributes: extends chains and component modifications (outermost wins) ----------------
+def rmods(mods, types):
+    """{name: {attr: decl}} -> 'x(max = .., each min = ..), p = 3'"""
+    out = []
+    for nm, am in mods.items():
+        integer = types[nm] == "Integer"
+        inner = ["%s%s = %s" % ("each " if d.get("each") else "", a, rdecl(d, integer)) for a, d in am.items() if a != "value"]
+        txt = nm + ("(%s)" % ", ".join(inner) if inner else "")
+        if "value" in am:
+            txt += " = " + rdecl(am["value"], integer)
+        out.append(txt)
+    return ", ".join(out)
+
+
+def gen_extends(rng):
+    base = gen_case_(rng, "multi")
+    P, V = base["params"], base["vars"]
+    levels = rng.choice([2, 3, 3])
+    names = ["Base", "Mid", "M"] if levels == 3 else ["Base", "M"]
+    types = {v["name"]: v["type"] for v in P + V}
+    lvl_decl = [dict() for _ in range(levels)]          # per level: {name: {attr: decl}}
+    overridden = 0
+    for v in P + V:
+        for a, d in v["attrs"].items():
+            if d is None:
+                continue
+            modifiable = not (a == "value" and (v["cat"] == "constant" or d["k"] not in ("lit", "elems")))
+            top = rng.randrange(levels) if modifiable else 0
+            lvl_decl[top].setdefault(v["name"], {})[a] = d
+            if top >= 1 and rng.random() < 0.75:
+                low = rng.randrange(top)
+                if a == "value":
+                    t = "I" if v["type"] == "Integer" else "R"
+                    inner = lit(t, rlitval(rng, t)) if d["k"] == "lit" else \
+                        {"k": "elems", "es": [lit(t, rlitval(rng, t)) for _ in d["es"]]}
+                    if v["type"] == "Boolean":
+                        inner = lit("B", not d["v"])
+                else:
+                    inner = gen_attr(rng, v, a, P, "mixed")
+                lvl_decl[low].setdefault(v["name"], {})[a] = inner
+                overridden += 1
+    # Base: the level-0 declarations
+    b0 = {"params": [dict(v, attrs=dict(lvl_decl[0].get(v["name"], {}))) for v in P],
+          "vars": [dict(v, attrs=dict(lvl_decl[0].get(v["name"], {}))) for v in V]}
+    txt = render(b0).replace("model M\n", "model Base\n").replace("end M;", "end Base;")
+    for k in range(1, levels):
+        mods = rmods(lvl_decl[k], types)
+        txt += "model %s\n  extends %s%s;\nend %s;\n" % (names[k], names[k - 1], "(%s)" % mods if mods else "", names[k])
+    r = rng.random()
+    case = {"kind": "extends", "params": P, "vars": V, "via": "generate" if r < 0.75 else "transfer",
+            "opts": {"expand_mx": True} if r < 0.2 else {}, "text": txt, "overridden": overridden}
+    case["pvs_exact"] = make_pvs(rng, P)
+    return case
+
+
+def gen_component(rng):
+    """Inner declared with attributes, instantiated with modifications at one or two enclosing levels"""
+    levels = rng.choice([2, 3])
+    prefix = "i."
+    comps = [("x", "Real", []), ("k", "Integer", []), ("y", "Real", [2])]
+    lvl = [dict() for _ in range(levels)]
+    V = []
+    for nm, T, dims in comps:
+        v = {"name": prefix + nm, "cat": "alg", "type": T, "dims": dims, "attrs": {}}
+        t = "I" if T == "Integer" else "R"
+        for a in ["min", "max", "start", "nominal"]:
+            if rng.random() < 0.6:
+                def mk():
+                    if dims and rng.random() < 0.5:
+                        return {"k": "elems", "es": [lit(t, rlitval(rng, t)) for _ in range(dims[0])]}
+                    return lit(t, rlitval(rng, t), each=bool(dims))
+                top = rng.randrange(levels)
+                d = mk()
+                v["attrs"][a] = d
+                lvl[top].setdefault(nm, {})[a] = d
+                if top >= 1 and rng.random() < 0.8:
+                    lvl[rng.randrange(top)].setdefault(nm, {})[a] = mk()
+        V.append(v)
+    P = [{"name": "p", "cat": "param", "type": "Real", "dims": [], "attrs": {"value": lit("R", rlitval(rng, "R"))}}]
+    w = {"name": "w", "cat": "alg", "type": "Real", "dims": [], "attrs": {"max": {"k": "exp", "e": g_aff_p(rng, [("p", None, "Real")], 1, False)}}}
+    types = {nm: T for nm, T, _ in comps}
+    inner = {"params": [], "vars": [{"name": nm, "cat": "alg", "type": T, "dims": dims, "attrs": dict(lvl[0].get(nm, {}))} for nm, T, dims in comps]}
+    txt = render(inner).replace("model M\n", "model Inner\n").replace("end M;", "end Inner;")
+    if levels == 3:
+        # Sub extends Inner with modifications, M instantiates Sub with modifications (a nested component
+        # modification m(i(x(..))) raises IndexError in the flattener: C08's territory, not used here)
+        m1 = rmods(lvl[1], types)
+        txt += "model Sub\n  extends Inner%s;\nend Sub;\n" % ("(%s)" % m1 if m1 else "")
+        m2 = rmods(lvl[2], types)
+        inst = "  Sub i%s;\n" % ("(%s)" % m2 if m2 else "")
+    else:
+        m1 = rmods(lvl[1], types)
+        inst = "  Inner i%s;\n" % ("(%s)" % m1 if m1 else "")
+    txt += "model M\n%s  parameter Real p = %s;\n  Real w(max = %s);\nequation\n  w = 1;\nend M;\n" % (
+        inst, rdecl(P[0]["attrs"]["value"], False), rdecl(w["attrs"]["max"], False))
+    case = {"kind": "component", "params": P, "vars": V + [w], "via": "generate", "opts": {}, "text": txt}
+    case["pvs_exact"] = make_pvs(rng, P)
     return case
 
 
@@ -739,7 +935,7 @@ def decl_elems(d, cnt, dims):
     return [one(x) for x in d["es"]]
 
 
-ELEM_RE = re.compile(r"^(\w+)\[(\d+)(?:,(\d+))?\]$")
+ELEM_RE = re.compile(r"^([\w.]+)\[(\d+)(?:,(\d+))?\]$")
 
 
 def elem_of(name, D):
@@ -981,6 +1177,12 @@ def cq_tree_(t, slot):
         return "(Neg %s)" % cq_tree_(t[1], slot)
     if k == "^":
         return "(Pow %s %d%%nat)" % (cq_tree_(t[1], slot), t[2])
+    if k == "if":
+        return "(IfB %s %s %s)" % (cq_tree_(t[1], slot), cq_tree_(t[2], slot), cq_tree_(t[3], slot))
+    if k == "not":
+        return "(NotB %s)" % cq_tree_(t[1], slot)
+    if k == "lt":
+        return "(LtB %s %s)" % (cq_tree_(t[1], slot), cq_tree_(t[2], slot))
     return "(%s %s %s)" % ({"+": "Add", "-": "Sub", "*": "Mul", "/": "Div"}[k], cq_tree_(t[1], slot), cq_tree_(t[2], slot))
 
 
@@ -1310,9 +1512,10 @@ def run(ctx):
     ctx.notes["source_fingerprint"] = {"model.py": fp, "generator.py": fp2}
 
     # ---- cases
-    mix = [("single_affine", ctx.scaled(9, 120)), ("single_mixed", ctx.scaled(5, 70)), ("single_bilinear", ctx.scaled(6, 60)),
-           ("multilinear", ctx.scaled(8, 80)), ("matrix2d", ctx.scaled(7, 70)), ("sequence", ctx.scaled(8, 80)),
-           ("multi", ctx.scaled(12, 200)),
+    mix = [("single_affine", ctx.scaled(7, 120)), ("single_mixed", ctx.scaled(5, 70)), ("single_bilinear", ctx.scaled(6, 60)),
+           ("multilinear", ctx.scaled(7, 80)), ("matrix2d", ctx.scaled(6, 70)), ("sequence", ctx.scaled(7, 80)),
+           ("switch", ctx.scaled(8, 80)), ("extends", ctx.scaled(6, 60)), ("component", ctx.scaled(3, 30)),
+           ("multi", ctx.scaled(6, 160)),
            ("none", ctx.scaled(3, 30)), ("subst", ctx.scaled(6, 70)), ("known_shape", ctx.scaled(3, 30))]
     cases = []
     try:
